@@ -14,7 +14,7 @@ TRUSTED = [
     "std::sync::RwLock admission, tokio blocking pool (every spawned task eventually gets a thread), OS scheduler fairness",
     "replay is one-directional for enabled steps (every model step must be executable by the server); blocked steps are probed at selected points only",
 ]
-RULE = ("job lists: one or two document notifications combined with zero, one or two requests of every kind; for each, all maximal "
+RULE = ("job lists: one to three document notifications (same document, or further never-seen documents) combined with zero, one or two requests of every kind; for each, all maximal "
         "schedules of the model (quick: a fixed sample of at most 40 per job list, thorough: all up to 4000) replayed on the real "
         "server; plus blocked-step probes and uncontrolled bursts; a schedule is non-trivial if a task step occurs between two "
         "main-loop steps; schedules are distinct by construction")
@@ -40,6 +40,12 @@ def joblists(ck):
     for k in kinds:
         out.append([["open", "a.td", TEXT], req(1, k)])
         out.append([["open", "a.td", TEXT], req(1, k), ["change", "a.td", TEXT + "// c\n"]])
+    # a document that the server has never seen is opened while tasks working on another document are alive
+    out.append([["open", "a.td", TEXT], ["open", "b.td", TEXT]])
+    out.append([["open", "a.td", TEXT], ["change", "a.td", TEXT + "// c\n"], ["open", "b.td", TEXT]])
+    for k in (kinds if not quick else ["definition", "hover", "documentLink"]):
+        out.append([["open", "a.td", TEXT], req(1, k), ["open", "b.td", TEXT]])
+    out.append([["open", "a.td", TEXT], ["open", "b.td", TEXT], ["open", "c.td", TEXT]])
     if not quick:
         for k1 in kinds[:4]:
             for k2 in kinds[:4]:
@@ -117,6 +123,8 @@ def run(ck):
     for i in range(6 if quick else 60):
         script = [["open", "a.td", big]]
         for k in range(rng.randrange(2, 6)):
+            if rng.random() < 0.4:
+                script.append(["open", "n%d.td" % k, big + "// n%d\n" % k])      # a never-seen document
             script.append(["change", "a.td", big + "// %d\n" % k])
             if rng.random() < 0.7:
                 script.append(req(100 + k, rng.choice(list(READS)))[:])
